@@ -17,7 +17,7 @@ SPEC = dict(
     technique="deterministic simulation with fault injection: full stack on simnet, lock-level scheduling, reference model + audits",
     design_ref="DESIGN.md section 6 (C11), section 9 (c2)",
     quick_s=60, thorough_s=600,
-    rule=("one run = one tape: relay resources (MaxReservations 1-4, per-IP 1-2, per-ASN 1-2 when IPv6 sources are drawn, MaxCircuits 1-2, TTL, data / duration limit or "
+    rule=("one run = one tape: warm or cold start (cold: no connection / identify before the first request, faults allowed in the prologue), relay resources (MaxReservations 1-4, per-IP 1-2, per-ASN 1-2 when IPv6 sources are drawn, MaxCircuits 1-2, TTL, data / duration limit or "
           "unlimited), ACL, population (3-5 clients on shared / distinct public IPs, raw or real circuit clients, optional client "
           "that reaches the relay through a second relay and may add / drop a direct connection next to the relayed one), a history of 4-12 operations (RESERVE real / raw, refresh, move to "
           "another IP, CONNECT raw with payloads around the limit and scripted hop / stop misbehaviour or resource refusal, "
@@ -30,7 +30,7 @@ SPEC = dict(
             "no-reservation-never-reserved", "no-reservation-after-disconnect", "no-reservation-after-expiry-and-collection",
             "connect-ok-on-expired-uncollected-or-uncertain", "disconnect-of-reservation-holder",
             "data-limit-hit-forward", "data-limit-hit-backward", "data-exactly-at-limit-forward", "data-exactly-at-limit-backward",
-            "duration-limit-hit", "x-direct-and-relayed", "x-reservation-dropped-limited-connection-remains",
+            "duration-limit-hit", "cold-first-contact-in-request", "batch-disconnect-races-own-request", "x-direct-and-relayed", "x-reservation-dropped-limited-connection-remains",
             "x-reservation-kept-unlimited-relayed-connection", "real-connect-ok", "real-echo-ok", "connection-failed"],
     real=["ALL of the following run as tasks of the seeded scheduler (instrumented)", "circuitv2 relay (relay.go, constraints.go)",
           "circuitv2 client (Reserve, transport dial / listen / stop handler)", "basic host, identify", "swarm", "tcp transport dial path",
